@@ -321,6 +321,9 @@ def main_cli(V, config, sysc, memm):
     vela.Imx93ArchitectureFeatures = rec("imx93")
     vela.architecture_features.ArchitectureFeatures = rec("generic")
     err = None
+    # the compiler is started from an arbitrary directory: not the one the module was imported from ("bundled" must not depend on it)
+    cwd0 = os.getcwd()
+    os.chdir(next(d for d in ("/usr/lib", "/usr/share", "/var/tmp", os.path.sep) if os.path.isdir(d)))
     try:
         with core.shims((vela, {"print": lambda *a, **k: None})):
             rc = vela.main(argv)
@@ -335,6 +338,9 @@ def main_cli(V, config, sysc, memm):
     finally:
         vela.os, vela.Imx93ArchitectureFeatures = saved[0], saved[1]
         vela.architecture_features.ArchitectureFeatures = saved[2]
+        got_abs = [os.path.abspath(p_) for c in calls if c[0] in ("imx93", "generic") for p_ in (c[1].get("vela_config_files") or [])]
+        run_dir = os.getcwd()
+        os.chdir(cwd0)
     ctor = [c for c in calls if c[0] in ("imx93", "generic")]
     cfgn = os.path.normpath(config) if config is not None else None
     # OPTIONS.md: "Dir/file.ini" names a file in the bundled configuration directory; files elsewhere are given by (absolute) path
@@ -349,8 +355,11 @@ def main_cli(V, config, sysc, memm):
     if config is None:
         cl.append(("no configuration file handed over", kw.get("vela_config_files") is None))
     else:
-        want = os.path.join(vela.CONFIG_FILES_PATH, os.path.normpath(config)) if bundled else os.path.normpath(config)
-        cl.append(("the architecture object reads the resolved path (Dir/file.ini -> bundled configuration directory)", [os.path.normpath(p_) for p_ in (kw.get("vela_config_files") or [])] == [want]))
+        # the bundled directory is the config_files directory next to the vela package (absolute, whatever the current directory)
+        bundled_dir = os.path.join(os.path.dirname(os.path.dirname(os.path.abspath(vela.__file__))), "config_files")
+        want = os.path.join(bundled_dir, cfgn) if bundled else os.path.normpath(os.path.join(run_dir, cfgn))
+        cl.append(("the architecture object reads the resolved path (Dir/file.ini -> bundled configuration directory, from any working directory)",
+                   got_abs == [want]))
     want_sys = sysc if sysc is not None else af.ArchitectureFeatures.DEFAULT_CONFIG
     want_mem = memm if memm is not None else af.ArchitectureFeatures.DEFAULT_CONFIG
     cl.append(("the selected system configuration is passed on, never replaced", kw.get("system_config") == want_sys))
